@@ -1,6 +1,7 @@
 """C10 — BCF typed encoding: reserved codes, widths, type table (DESIGN.md §5 C10)."""
 import re
 
+from .. import a10
 from .. import a4
 from .. import a6
 from .. import a7
@@ -161,6 +162,16 @@ def run(ctx):
                           "panics instead of returning an error" % (root, len(sites), mac, cnt), f0.loc(b0))
         else:
             ctx.ok("C10.R3", "%s %s!() x%d" % (root, mac, len(sites)), "tabled: " + reason, f0.loc(b0))
+
+    ctx.rule("C10.R5", "A3 reused buffer: the BCF record decoder overwrites or clears each column of the destination vcf RecordBuf")
+    R.reused_buffer_rule(ctx, "C10.R5", "noodles_bcf::record::codec::decoder::read_site", "record_buf::RecordBuf::",
+                         ["reference_sequence_name_mut", "variant_start_mut", "quality_score_mut", "ids_mut", "reference_bases_mut",
+                          "alternate_bases_mut", "filters_mut", "info_mut"])
+    R.reused_buffer_rule(ctx, "C10.R5", "noodles_bcf::io::reader::record_buf::read_record_buf", "record_buf::RecordBuf::", ["samples_mut"],
+                         start_after=lambda c: (c.get("f") or "").endswith("decoder::read_site"))
+
+    ctx.rule("C10.R6", "A10 append-buffer discipline: the BCF header reader (VCF text) resets its line buffer before every appended line")
+    a10.discipline_rule(ctx, "C10.R6", r"^<?noodles_bcf::", 2)
 
     ctx.rule("C10.R4", "string-map lookups on decode are error exits on a missing index")
     n = 0
